@@ -146,7 +146,41 @@ func TestGovcHarness_setIsIota(t *testing.T) {
 		}
 		return false
 	}
-	rec()
+	if rec() {
+		return
+	}
+	// long blocks (sizes around machine-word boundaries), with one perturbation at a high position
+	for _, n := range []int{31, 32, 33, 63, 64, 65, 66, 70, 130} {
+		base := make([]govcMember, n)
+		for i := range base {
+			base[i] = govcMember{fmt.Sprintf("M%d", i), int64(i)}
+		}
+		variants := [][]govcMember{base}
+		for _, at := range []int{n - 1, n - 2, n / 2} {
+			if at < 1 {
+				continue
+			}
+			dup := append([]govcMember(nil), base...)
+			dup[at].Val = dup[at-1].Val // duplicate, gap at the end
+			variants = append(variants, dup)
+			gapdup := append([]govcMember(nil), base...)
+			gapdup[at-1].Val = int64(n) // gap at at-1 ...
+			gapdup[at].Val = int64(n)   // ... compensated by a duplicate above the range
+			variants = append(variants, gapdup)
+			unexp := append([]govcMember(nil), base...)
+			unexp[at].Name = fmt.Sprintf("m%d", at)
+			variants = append(variants, unexp)
+		}
+		for _, v := range variants {
+			cases++
+			if msg := govcCheckIota(v); msg != "" {
+				b, _ := json.Marshal(v)
+				fmt.Printf("GOVC-FAIL %s\n", b)
+				t.Error(msg)
+				return
+			}
+		}
+	}
 }
 
 const govcEnumSrc = `package p
@@ -267,6 +301,53 @@ func TestGovcHarness_fetchPkgEnums(t *testing.T) {
 		cases++
 		if _, ok := want[name]; !ok {
 			fail("type %s must not be an enum", name)
+		}
+	}
+}
+
+// fetchEnumsAndUnions walks the import graph (closure recursion, outside the verified subset):
+// bounded coverage on a scratch module with two sub-packages sharing a package NAME and a type name.
+func TestGovcHarness_fetchEnumsAndUnions(t *testing.T) {
+	root, err := os.MkdirTemp("/var/tmp", "govc-c10b-")
+	if err != nil {
+		t.Fatal(err)
+	}
+	defer os.RemoveAll(root)
+	w := func(rel, content string) {
+		os.MkdirAll(root+"/"+rel[:len(rel)-len("/x.go")], 0o755)
+		os.WriteFile(root+"/"+rel, []byte(content), 0o644)
+	}
+	os.WriteFile(root+"/go.mod", []byte("module example.com/org/m\n\ngo 1.21\n"), 0o644)
+	w("shapes/kinds/x.go", "package kinds\n\ntype Kind int\n\nconst (\n\tCircle Kind = iota\n\tSquare\n)\n")
+	w("colors/kinds/x.go", "package kinds\n\ntype Kind string\n\nconst (\n\tRed Kind = \"r\"\n\tBlue Kind = \"b\"\n)\n")
+	w("deep/a/x.go", "package a\n\nimport \"example.com/org/m/deep/b\"\n\ntype A struct{ B b.Level }\n")
+	w("deep/b/x.go", "package b\n\ntype Level uint8\n\nconst (\n\tLow Level = iota\n\tHigh\n)\n")
+	os.WriteFile(root+"/root.go", []byte("package m\n\nimport (\n\tsk \"example.com/org/m/shapes/kinds\"\n\tck \"example.com/org/m/colors/kinds\"\n\t\"example.com/org/m/deep/a\"\n)\n\ntype T struct {\n\tS sk.Kind\n\tC ck.Kind\n\tA a.A\n\tM Mode\n}\n\ntype Mode int\n\nconst (\n\tOff Mode = iota\n\tOn\n)\n"), 0o644)
+	os.Setenv("GOFLAGS", "-mod=mod")
+	os.Setenv("GOPROXY", "off")
+	cases := 0
+	defer func() { fmt.Printf("GOVC-CASES %d\n", cases) }()
+	for rep := 0; rep < 8; rep++ { // map iteration order varies between repetitions
+		pa, err := LoadSource(root + "/root.go")
+		if err != nil {
+			t.Fatal(err)
+		}
+		enums, _ := fetchEnumsAndUnions(pa)
+		got := map[string]int{}
+		for n, e := range enums {
+			got[n.Obj().Pkg().Path()+"."+n.Obj().Name()] = len(e.Members)
+		}
+		want := map[string]int{"example.com/org/m.Mode": 2, "example.com/org/m/shapes/kinds.Kind": 2, "example.com/org/m/colors/kinds.Kind": 2, "example.com/org/m/deep/b.Level": 2}
+		for k, n := range want {
+			cases++
+			if got[k] != n {
+				fmt.Printf("GOVC-FAIL \"enum %s: %d members found, want %d (all: %v)\"\n", k, got[k], n, got)
+				t.Fatalf("enum %s: %d members found, want %d", k, got[k], n)
+			}
+		}
+		if len(got) != len(want) {
+			fmt.Printf("GOVC-FAIL \"unexpected enums %v\"\n", got)
+			t.Fatalf("unexpected enums %v", got)
 		}
 	}
 }
